@@ -40,6 +40,10 @@ TRUSTED = [
     "simulated qubits and registers follows the held qubits is C02's invariant; here it is judged by the oracle only",
     "link-layer records written into the result arrays are inputs of the model (recorded at "
     "Executor._store_ent_info), like measurement outcomes and the peer's answer to each send",
+    "netqasm's request bookkeeping after a failed entanglement request is modelled by two observations that are "
+    "tied on every message: which (create/recv, remote node, socket) keys still have a request record of a finished "
+    "subroutine at the head of _epr_create_requests / _epr_recv_requests (the next request on that key fails at the "
+    "hand-over) and whether a response is stuck in _pending_epr_responses (then every later hand-over fails)",
     "harness/nqcase.Runner (wrapper around executioner.call_method, tokens by order of appearance), "
     "harness/nqcase.render_instr, harness/simnet (fake reactor, PB over iosim, virtual time for receive polling)",
 ]
@@ -48,8 +52,8 @@ ASSUMPTIONS = [
     "create-and-keep requests only; measure-directly requests do not run against netqasm 2.3.0 (F14, C08)",
     "`held` counts virtual qubits at the node; a half delivered by a peer and not yet received is held by the "
     "node but by no application and is subtracted (receive-queue length) before comparing with the baseline",
-    "the virtual address given to a pair is free when the pair is delivered (a used address makes netqasm poll "
-    "forever; explicit `blocked` in the model, not generated)",
+    "the virtual address given to a pair is free when the pair is delivered and the result array is long enough "
+    "(otherwise netqasm polls forever; explicit `blocked` / `unmodelled` in the model, not generated)",
 ]
 
 NAMES = ["Alice", "Bob"]
